@@ -245,7 +245,9 @@ def check_C07(ctx):
         rep.evals(len(reps) ** 3)
         rep.ob("C07.cmp-transitive", "all triples", bad_tr == 0, "%d representative triples violate transitivity" % bad_tr, pdb.where(kcmp))
         if nonorder and not (bad_spec or bad_anti or bad_eq or bad_tr):
-            rep.uncertified("C07.cmp", "cmp uses the values other than in comparisons (%s): representatives cannot certify all 65536x65536 pairs" % sorted(set(nonorder)), pdb.where(kcmp))
+            why = key_structured_cmp(ctx, dag, a, b, kcmp)
+            if why is not None:
+                rep.uncertified("C07.cmp", "cmp uses the values other than in comparisons (%s) and is not a comparison of one sort key per rank (%s): representatives cannot certify all 65536x65536 pairs" % (sorted(set(nonorder)), why), pdb.where(kcmp))
         rep.sample({"rule": "C07.cmp", "cells": len(cells), "representatives": len(reps), "pairs": len(table), "triples": len(reps) ** 3,
                     "example": {"a": reps[1], "b": reps[-1], "cmp": table[(reps[1], reps[-1])]}})
         # partial_cmp = Some(cmp)
@@ -288,7 +290,12 @@ def check_C07(ctx):
             for (x, y) in table:
                 if bool(cval(ctx.fold(ed, {"a": x, "b": y}))) != (x == y):
                     badeq = badeq or (x, y)
-            rep.ob("C07.equality", "hand-written PartialEq", badeq is None and "ne" not in im2["items"], "== on converted ranks is not equality of their values, e.g. from(%s) vs from(%s)" % (badeq or (0, 0)), pdb.where(im2["items"]["eq"]))
+            if "ne" in im2["items"]:
+                nd_ = ctx.summ(im2["items"]["ne"], [("r", ra), ("r", rb)]).ret
+                for (x, y) in table:
+                    if bool(cval(ctx.fold(nd_, {"a": x, "b": y}))) != (x != y):
+                        badeq = badeq or (x, y)
+            rep.ob("C07.equality", "hand-written PartialEq", badeq is None, "==/!= on converted ranks is not (in)equality of their values, e.g. from(%s) vs from(%s)" % (badeq or (0, 0)), pdb.where(im2["items"]["eq"]))
         else:
             rep.ob("C07.equality", "HandRank: PartialEq", False, "HandRank has no PartialEq impl")
     ctx.guard("C07.cmp", cmp_table)
@@ -316,6 +323,48 @@ def check_C07(ctx):
             rep.ob("C07.enum-in-step", label, not bad, "derived order of the %s enumeration decreases between adjacent values %s" % (label, bad[:2]), "src/hand_rank.rs")
             rep.evals(len(seq))
     ctx.guard("C07.enums", enums)
+
+
+def key_structured_cmp(ctx, dag, a, b, kcmp):
+    """cmp(x, y) written as a comparison of key(x) with key(y): verify the key over all 65536 values instead of
+    representatives.  Returns None when certified (obligations recorded), else the reason it does not apply."""
+    rep, pdb = ctx.rep, ctx.pdb
+    # maximal sub-DAGs reading only a (resp. only b) that are operands of comparisons
+    ka, kb = {}, {}
+    for x in walk(dag):
+        if x[0] == "bin" and x[1] in ("Lt", "Le", "Gt", "Ge", "Eq", "Ne"):
+            for l, r in ((x[2], x[3]), (x[3], x[2])):
+                al, ar = set(atoms_of(l)), set(atoms_of(r))
+                if al == {"a"} and ar == {"b"}:
+                    ka[id(l)] = l
+                    kb[id(r)] = r
+    if len(ka) != 1 or len(kb) != 1:
+        return "found %d/%d key expressions" % (len(ka), len(kb))
+    KA, KB = next(iter(ka.values())), next(iter(kb.values()))
+    if substitute(KA, lambda nd: b if nd is a else None) is not KB:
+        return "the two sides use different key functions"
+    ty = ty_of(KA)
+    xa, xb = atom("$ka", ty), atom("$kb", ty)
+    g = substitute(dag, lambda nd: xa if nd is KA else (xb if nd is KB else None))
+    if set(atoms_of(g)) - {"$ka", "$kb"}:
+        return "the result reads the ranks outside the keys"
+    sign = {"Less": -1, "Equal": 0, "Greater": 1}
+    rel = {}
+    for (x, y) in ((1, 2), (2, 2), (2, 1)):
+        rel[(x > y) - (x < y)] = sign[enum_name(pdb, evaluate(pdb, g, {"$ka": x, "$kb": y}))]
+    if rel != {-1: -1, 0: 0, 1: 1}:
+        return "the keys are not compared in the natural order"
+    keys = [cval(evaluate(pdb, KA, {"a": v})) for v in range(65536)]
+    rep.evals(65536)
+    valid = lambda v: 1 <= v <= 7462
+    inj = len(set(keys)) == 65536
+    rep.ob("C07.cmp-key", "injective", inj, "two different values have the same sort key (they would compare Equal although the ranks differ)", pdb.where(kcmp))
+    ok_valid = all(keys[v] > keys[v + 1] for v in range(1, 7462))
+    rep.ob("C07.cmp-key", "valid: lower value is greater", ok_valid, "the sort key does not decrease with the value over 1..=7462", pdb.where(kcmp))
+    min_valid = min(keys[v] for v in range(1, 7463))
+    max_invalid = max(keys[v] for v in range(65536) if not valid(v))
+    rep.ob("C07.cmp-key", "invalid below valid", max_invalid < min_valid, "an invalid rank's sort key is not below every valid rank's", pdb.where(kcmp))
+    return None
 
 
 # -------------------------------------------------------------------------------------------------
